@@ -367,8 +367,8 @@ func (g *gen) rtspStep(s *sess) {
 	if s.kind == "rtsp" && g.authOn {
 		s.hasNonce = true
 	}
-	if method == "TEARDOWN" || (method == "PLAY" && strings.HasPrefix(out, "200")) {
-		s.done = true // a second PLAY gets no answer at all (C12): the session is left alone
+	if method == "TEARDOWN" {
+		s.done = true
 	}
 }
 
